@@ -44,6 +44,7 @@ def plan(tier, seed):
              for b, q in (pairs if dense else pairs[::3])]
     return {
         'groups': gs,
+        'lean_lemmas': ['pr_2d', 'pr_2d_bands', 'pr_levels'],
         'native': [('oracle_dtcwt.py', [seed], 'oracle: dual-tree column-operation specs vs dtcwt.numpy.lowlevel'),
                    ('bounded.py', [write_jobs('C04', jobs), seed], 'bounded: PR of the reference algorithm for all 20 filter pairs (sizes 2..40, J up to 3/5) and of the real modules')],
         'level': 'other', 'trusted_base': TRUSTED + ['reference dtcwt 0.14 (oracle)'],
